@@ -98,7 +98,22 @@ func has(l []string, x string) bool {
 	return false
 }
 
+// kinds returns the 8 request kinds plus, where the contract accepts such a request, a variant whose request content
+// is ALREADY IN FORCE when it is filed (duplicate registration / removal of something absent / update with identical
+// content): its approval round is a no-op on the registry, yet the request must be consumed by it.
 func kinds(e *gov.Env) []*kind {
+	base := kindsBase(e, false)
+	for _, k := range kindsBase(e, true) {
+		switch k.name {
+		case "updateSideChain", "registerRelayer", "removeRelayer", "registerStateValidator", "removeStateValidator":
+			k.name += "+contentAlreadyInForce"
+			base = append(base, k)
+		}
+	}
+	return base
+}
+
+func kindsBase(e *gov.Env, inForce bool) []*kind {
 	// round (harness macro): validators approve one after the other until done() reports the effect; the macro
 	// does not presuppose the quorum rule.
 	round := func(w gov.Execer, f func(who string) polyenv.Result, done func(m map[string]string) bool, what string) {
@@ -157,6 +172,17 @@ func kinds(e *gov.Env) []*kind {
 	}
 	u := gov.U64
 	c1 := e.A("c1").PubHex
+	updTag := "updX"
+	nop := func(w gov.Execer) {}
+	setupRegRel, setupRemRel := nop, func(w gov.Execer) { addRelayer(w, h0) }
+	setupRegSV, setupRemSV := nop, func(w gov.Execer) { addSV(w, h0) }
+	idsReg, idsRem := []uint64{0, 1}, []uint64{0, 1}
+	if inForce { // the state the request asks for already holds when it is filed
+		updTag = "reg"
+		setupRegRel, setupRemRel = setupRemRel, setupRegRel
+		setupRegSV, setupRemSV = setupRemSV, setupRegSV
+		idsReg = []uint64{1, 2} // apply id 0 was used by the setup
+	}
 	return []*kind{
 		{name: "registerSideChain", ids: []uint64{1}, setup: func(w gov.Execer) {},
 			request: func(w gov.Execer, h uint32) (polyenv.Result, uint64) {
@@ -169,7 +195,7 @@ func kinds(e *gov.Env) []*kind {
 			invOK:   func(m map[string]string) bool { return present(m, gov.KeySideChain(1)) }, inverse: quitChain},
 		{name: "updateSideChain", ids: []uint64{1}, setup: func(w gov.Execer) { regChain(w, h0) },
 			request: func(w gov.Execer, h uint32) (polyenv.Result, uint64) {
-				return e.UpdateSideChain(w, "o1", "o1", 1, "updX", h), 1
+				return e.UpdateSideChain(w, "o1", "o1", 1, updTag, h), 1
 			},
 			approve: func(w gov.Execer, id uint64, who string, h uint32) polyenv.Result {
 				return e.ApproveSC(w, side_chain_manager.APPROVE_UPDATE_SIDE_CHAIN, id, who, h)
@@ -186,7 +212,7 @@ func kinds(e *gov.Env) []*kind {
 			invOK: func(m map[string]string) bool {
 				return !present(m, gov.KeySideChain(1)) && !present(m, gov.KeySideChainApply(1))
 			}, inverse: regChain},
-		{name: "registerRelayer", ids: []uint64{0, 1}, setup: func(w gov.Execer) {},
+		{name: "registerRelayer", ids: idsReg, setup: setupRegRel,
 			request: func(w gov.Execer, h uint32) (polyenv.Result, uint64) {
 				id := gov.Counter(w.Dump().Map(), gov.KeyRelayerApplyID())
 				return e.RegisterRelayer(w, []string{"ra"}, "X", h), id
@@ -196,7 +222,7 @@ func kinds(e *gov.Env) []*kind {
 			}, notify: "ApproveRegisterRelayer",
 			signKey: func(id uint64) string { return gov.SignKey(relayer_manager.APPROVE_REGISTER_RELAYER, u(id)) },
 			invOK:   func(m map[string]string) bool { return present(m, gov.KeyRelayer(e.A("ra").Addr)) }, inverse: delRelayer},
-		{name: "removeRelayer", ids: []uint64{0, 1}, setup: func(w gov.Execer) { addRelayer(w, h0) },
+		{name: "removeRelayer", ids: idsRem, setup: setupRemRel,
 			request: func(w gov.Execer, h uint32) (polyenv.Result, uint64) {
 				id := gov.Counter(w.Dump().Map(), gov.KeyRelayerRemoveID())
 				return e.RemoveRelayer(w, []string{"ra"}, "X", h), id
@@ -221,7 +247,7 @@ func kinds(e *gov.Env) []*kind {
 					panic("harness: candidate still in the pool after quitNode + commitDpos")
 				}
 			}, invView: true},
-		{name: "registerStateValidator", ids: []uint64{0, 1}, setup: func(w gov.Execer) {},
+		{name: "registerStateValidator", ids: idsReg, setup: setupRegSV,
 			request: func(w gov.Execer, h uint32) (polyenv.Result, uint64) {
 				id := gov.Counter(w.Dump().Map(), gov.KeySVApplyID())
 				return e.RegisterSV(w, []string{"sv1"}, "X", h), id
@@ -231,7 +257,7 @@ func kinds(e *gov.Env) []*kind {
 			}, notify: "ApproveRegisterStateValidator",
 			signKey: func(id uint64) string { return gov.SignKey(neo3_state_manager.APPROVE_REGISTER_STATE_VALIDATOR, u(id)) },
 			invOK:   func(m map[string]string) bool { return has(gov.SVs(m), "sv1") }, inverse: delSV},
-		{name: "removeStateValidator", ids: []uint64{0, 1}, setup: func(w gov.Execer) { addSV(w, h0) },
+		{name: "removeStateValidator", ids: idsRem, setup: setupRemSV,
 			request: func(w gov.Execer, h uint32) (polyenv.Result, uint64) {
 				id := gov.Counter(w.Dump().Map(), gov.KeySVRemoveID())
 				return e.RemoveSV(w, []string{"sv1"}, "X", h), id
@@ -306,6 +332,9 @@ func (x *explorer) step(s state, evn string) (state, bool) {
 	case evn == "request":
 		res, id := k.request(w, h)
 		if res.OK {
+			if !nm.Pending[id] {
+				delete(nm.Since, id) // a new round starts with the fresh request
+			}
 			nm.Pending[id] = true
 			x.count("request-accepted")
 			if nm.Applied[id] > 0 {
@@ -374,7 +403,13 @@ func (x *explorer) step(s state, evn string) (state, bool) {
 	default:
 		x.count("approval-recorded")
 	}
-	if effect {
+	// consumed = applied by the code (visible effect) OR, by the reference quorum rule, a full round of approvals was
+	// accepted for a pending request (its application may be a no-op on the registry: content already in force)
+	silent := !effect && nm.Pending[id] && len(nm.Since[id]) >= x.e.Q()
+	if silent {
+		x.count("round-completed-without-visible-effect")
+	}
+	if effect || silent {
 		nm.Pending[id] = false
 		nm.Applied[id]++
 		delete(nm.Since, id)
